@@ -85,6 +85,9 @@ def apply_value(ev, v, args, depth=0):
         r = ev.inline(v)
         if r is not None and r is not v:
             return apply_value(ev, r, args, depth + 1)
+    if v.op == "partial" and v.fn.op == "ref" and v.fn.ref.qual in SUMMARISED:
+        # partial(match_complex, x)(g) is the summarised call match_complex(x, g): keep it as a call
+        return T("call", v.node, v.mod, fn=v.fn, args=list(v.args) + list(args), kw=dict(v.kw), dstar=[])
     clo, pre, prekw = ev.as_closure(v)
     if clo is not None:
         return ev.apply(clo, pre + list(args), prekw, [])
